@@ -53,6 +53,16 @@ def budget(tier):
 def build(case):
     from gaftools.gfa import GFA
 
+    if case.get("from_file"):
+        import random as _r
+
+        lines = ["S\t%s\t*" % n for n in case["nodes"]] + ["L\t%s\t%s\t%s\t%s\t%dM" % tuple(l) for l in case["links"]]
+        _r.Random(case["from_file"]).shuffle(lines)
+        with core.workdir() as d:
+            core.write_text(d + "/g.gfa", "\n".join(lines) + "\n")
+            r = core.call(GFA, d + "/g.gfa")
+        core.check(r[0] == "ok", "loading the graph from a GFA file failed: %s", r)
+        return r[1]
     g = GFA()
     for n in case["nodes"]:
         g.add_node(n)
@@ -124,6 +134,8 @@ def run_graph_case(case):
     g = build(case)
     info = check_graph(g, case["nodes"], case["links"])
     classes = ["graph:%d_nodes" % min(len(case["nodes"]), 9)] + (["real_graph_window"] if case.get("real_window") else [])
+    if case.get("from_file"):
+        classes.append("loaded_from_gfa_file")
     if any(l[0] == l[2] for l in case["links"]):
         classes.append("self_link")
     seen = set()
@@ -337,7 +349,10 @@ def strategy_(draw, tier):
         links.append([a, draw(st.sampled_from("+-")), b, draw(st.sampled_from("+-")), draw(st.sampled_from([0, 0, 2]))])
     order = draw(st.permutations(ids))
     lorder = draw(st.permutations(range(len(links))))
-    return {"kind": "graph", "nodes": list(order), "links": [links[k] for k in lorder]}
+    case = {"kind": "graph", "nodes": list(order), "links": [links[k] for k in lorder]}
+    if draw(st.integers(0, 2)) == 0:
+        case["from_file"] = draw(st.integers(1, 10**6))  # written as GFA text (lines shuffled) and loaded
+    return case
 
 
 def strategy(tier):
